@@ -285,6 +285,12 @@ pub fn read_journal(path: &Path) -> Result<(Vec<Event>, bool), String> {
 /// `prune_journal`, rename, reopen for append) on the file, then appends `append` through the
 /// same process and shuts it down.
 pub fn real_prune(path: &Path, live_jobs: &[u32], live_workers: &[u32], append: &[Event]) -> Result<(), String> {
+    real_prune_with(path, &[], live_jobs, live_workers, append)
+}
+
+/// Like `real_prune`; `before` are records handed to the journal thread right before the prune
+/// request, without a flush in between (they are still in the writer's buffer when it arrives).
+pub fn real_prune_with(path: &Path, before: &[Event], live_jobs: &[u32], live_workers: &[u32], append: &[Event]) -> Result<(), String> {
     let rt = tokio::runtime::Builder::new_current_thread()
         .enable_time()
         .build()
@@ -293,6 +299,7 @@ pub fn real_prune(path: &Path, live_jobs: &[u32], live_workers: &[u32], append: 
     let (tx, rx) = tokio::sync::mpsc::unbounded_channel::<EventStreamMessage>();
     let path2 = path.to_path_buf();
     let append: Vec<Event> = append.to_vec();
+    let before: Vec<Event> = before.to_vec();
     let lj: tako::Set<tako::JobId> = live_jobs.iter().map(|j| tako::JobId::new(*j)).collect();
     let lw: tako::Set<tako::WorkerId> = live_workers.iter().map(|w| tako::WorkerId::new(*w)).collect();
     rt.block_on(async move {
@@ -303,6 +310,9 @@ pub fn real_prune(path: &Path, live_jobs: &[u32], live_workers: &[u32], append: 
             Duration::from_secs(3600),
         );
         let driver = async move {
+            for e in before {
+                tx.send(EventStreamMessage::Event(e)).map_err(|_| "journal process ended".to_string())?;
+            }
             let (cb, done) = tokio::sync::oneshot::channel();
             tx.send(EventStreamMessage::PruneJournal {
                 callback: cb,
@@ -683,6 +693,19 @@ impl Checker<'_> {
         {
             self.v("C11", "queue-id-reused", "counter".into(), format!("next queue id {} but journal mentions queue {m}", restored.queue_id_counter), case.clone());
         }
+        // the bootstrap re-adds the restored queues under their old ids and the next `hq alloc add`
+        // gets the next id: on the real AutoAllocState
+        {
+            let ids: Vec<u32> = restored.queues.iter().map(|q| q.0).collect();
+            let counter = restored.queue_id_counter;
+            if let Ok(next) = catch_unwind(AssertUnwindSafe(|| crate::autoalloc::system::bootstrap_next_queue_id(counter, &ids))) {
+                if reference.queue_ids.contains(&next) {
+                    self.v("C11", "queue-id-reused", "new-queue-after-bootstrap-readd".into(), format!("after the restart the restored queues {ids:?} are re-added and the next new queue gets id {next}, which the journal mentions (counter handed over: {counter})"), case.clone());
+                }
+            } else {
+                crate::common::take_swallowed_panic();
+            }
+        }
         let rq: BTreeSet<u32> = restored.queues.iter().map(|q| q.0).collect();
         if rq != reference.live_queues {
             self.v("C10", "queues-differ", "queues".into(), format!("restored queues {rq:?}, recorded live queues {:?}", reference.live_queues), case.clone());
@@ -1029,6 +1052,34 @@ impl Checker<'_> {
         } else {
             self.v("C12", "second-prune-fails", "streaming_process".into(), "pruning the pruned journal again failed".into(), case.clone());
         }
+        // records that reached the journal thread after its last flush: the last one or two records
+        // are still in the writer's buffer when the prune request arrives; the result must be the
+        // same as pruning the completely written journal
+        for tail in [1usize, 2] {
+            if records.len() <= tail {
+                continue;
+            }
+            let n = records.len() - tail;
+            let p5 = dir.join("pruned5.journal");
+            write_journal(&p5, &records[..n]);
+            match catch_unwind(AssertUnwindSafe(|| real_prune_with(&p5, &records[n..], live_jobs, live_workers, &[]))) {
+                Ok(Ok(())) => {
+                    let clean = std::fs::read(&pruned).unwrap_or_default();
+                    if std::fs::read(&p5).unwrap_or_default() != clean {
+                        let got = read_journal(&p5).map(|(r, _)| r.iter().map(|e| payload_tag(&e.payload)).collect::<Vec<_>>());
+                        self.v(
+                            "C12",
+                            "unflushed-records-lost-by-prune",
+                            format!("last-{tail}-records-in-the-writer-buffer"),
+                            format!("the last {tail} record(s) reached the journal thread after its last flush; the pruned journal then holds {got:?}, pruning the fully written journal gives {:?}", read_journal(&pruned).map(|(r, _)| r.iter().map(|e| payload_tag(&e.payload)).collect::<Vec<_>>())),
+                            case.clone(),
+                        );
+                    }
+                }
+                _ => self.v("C12", "prune-fails-with-unflushed-records", format!("last-{tail}"), "prune failed or panicked with unflushed records in the writer".into(), case.clone()),
+            }
+            crate::common::take_swallowed_panic();
+        }
         // crash during an earlier prune: the server died after (part of) `<journal>.tmp` was
         // written and before the rename; it restarted from the intact journal, went on, and now
         // prunes again. The leftover must not influence the result. A real leftover is the pruned
@@ -1217,7 +1268,15 @@ fn autoalloc_suffixes(reference: &RefState) -> Vec<Vec<Event>> {
     let now = chrono::Utc::now();
     let q = reference.queue_ids.iter().max().copied().unwrap_or(0) + 1;
     let ev = |p: EventPayload| Event { time: now, payload: p };
+    let p3 = params();
+    let p4 = params();
     vec![
+        // two queues, the one with the higher id removed again
+        vec![
+            ev(EventPayload::AllocationQueueCreated(q, p3)),
+            ev(EventPayload::AllocationQueueCreated(q + 1, p4)),
+            ev(EventPayload::AllocationQueueRemoved(q + 1)),
+        ],
         vec![ev(EventPayload::AllocationQueueCreated(q, p1))],
         vec![
             ev(EventPayload::AllocationQueueCreated(q, p2)),
